@@ -39,6 +39,8 @@ struct Case {
     spelling: u8,
     /// put the flags after the positional expression
     flags_last: bool,
+    /// environment variables given to jp (the rest of the environment is empty)
+    env: Vec<(String, String)>,
     /// labels for coverage cells (do not influence execution)
     expr_class: String,
     input_class: String,
@@ -59,6 +61,7 @@ fn case_to_json(c: &Case) -> Value {
         "input_hex": hex(&c.input), "input_text": String::from_utf8_lossy(&c.input), "input_via": c.input_via,
         "unquoted": c.unquoted, "ast": c.ast, "illegal": c.illegal, "real_fs": c.real_fs, "plan": c.plan,
         "spelling": c.spelling, "flags_last": c.flags_last,
+        "env": c.env.iter().map(|(k, v)| json!([k, v])).collect::<Vec<_>>(),
         "expr_class": c.expr_class, "input_class": c.input_class,
     })
 }
@@ -91,6 +94,18 @@ fn case_from_json(v: &Value) -> Result<Case, String> {
         plan: list("plan"),
         spelling: v.get("spelling").and_then(|x| x.as_u64()).unwrap_or(0) as u8,
         flags_last: v.get("flags_last").and_then(|x| x.as_bool()).unwrap_or(false),
+        env: v
+            .get("env")
+            .and_then(|x| x.as_array())
+            .map(|a| {
+                a.iter()
+                    .filter_map(|p| {
+                        let p = p.as_array()?;
+                        Some((p.get(0)?.as_str()?.to_string(), p.get(1)?.as_str()?.to_string()))
+                    })
+                    .collect()
+            })
+            .unwrap_or_default(),
         expr_class: s("expr_class"),
         input_class: s("input_class"),
     })
@@ -334,6 +349,7 @@ fn run_case(env: &Env, c: &Case, tag: &str) -> Result<Obs, String> {
         .env("SYSSHIM_PLAN", c.plan.join(";"))
         .env("RUST_BACKTRACE", "0")
         .env("LC_ALL", "C")
+        .envs(c.env.iter().filter(|(k, v)| !k.is_empty() && !k.contains('=') && !k.contains('\0') && !v.contains('\0')).map(|(k, v)| (k.clone(), v.clone())))
         .current_dir(&dir)
         .stdout(Stdio::piped())
         .stderr(Stdio::piped());
@@ -785,7 +801,7 @@ fn gen_plan(r: &mut Rng, c: &Case) -> Vec<String> {
     plan
 }
 
-fn gen_case(seed: u64) -> Case {
+fn gen_case(seed: u64, discovered: &BTreeSet<String>) -> Case {
     let mut r = Rng::new(seed);
     let base = if r.chance(2, 3) {
         // records document; now and then big enough for input and output to exceed any
@@ -831,6 +847,7 @@ fn gen_case(seed: u64) -> Case {
         plan: vec![],
         spelling: *r.pick(&[0u8, 0, 0, 1, 2, 3]),
         flags_last: r.chance(1, 4),
+        env: vec![],
         expr_class: expr_class.into(),
         input_class: input_class.into(),
     };
@@ -857,8 +874,37 @@ fn gen_case(seed: u64) -> Case {
         }
     }
     c.plan = gen_plan(&mut r, &c);
+    // configuration inputs: the statement has no exception for the environment or for
+    // stdout being a terminal, so jp must answer the same with any of these set
+    if r.chance(1, 5) {
+        let pool: Vec<&str> = ENV_NAMES.iter().copied().chain(discovered.iter().map(|s| s.as_str())).collect();
+        for _ in 0..(1 + r.below(3)) {
+            let k = pool[r.below(pool.len())].to_string();
+            let v = (*r.pick(&["1", "0", "true", "", "always", "never", "4", "xyz", "en_US.UTF-8", "tr_TR.UTF-8", "dumb", "80"])).to_string();
+            if !c.env.iter().any(|(kk, _)| *kk == k) {
+                c.env.push((k, v));
+            }
+        }
+    }
+    if r.chance(1, 8) {
+        let fd = *r.pick(&[1, 1, 1, 2, 0]);
+        c.plan.push(format!("tty:{}", fd));
+        if r.chance(1, 3) {
+            c.plan.push("tty:2".to_string());
+        }
+        c.plan.sort();
+        c.plan.dedup();
+    }
     c
 }
+
+/// Variable names a command-line tool plausibly consults; names jp is actually seen to
+/// query (getenv is traced by the shim) are added to the pool as the run goes on.
+const ENV_NAMES: &[&str] = &[
+    "NO_COLOR", "CLICOLOR", "CLICOLOR_FORCE", "COLORTERM", "TERM", "COLUMNS", "LINES", "LANG", "LC_NUMERIC", "LC_CTYPE",
+    "JP_UNQUOTED", "JP_COMPACT", "JP_INDENT", "JP_COLOR", "JP_FILENAME", "JP_EXPR_FILE", "JP_OPTS", "JMESPATH_OPTS", "HOME",
+    "PWD", "TMPDIR", "RUST_LOG", "DEBUG", "VERBOSE", "QUIET", "CI", "PAGER", "POSIXLY_CORRECT",
+];
 
 /// Fixed grid: flag configurations x program classes x input classes x fault kinds, once each.
 fn grid() -> Vec<Case> {
@@ -891,6 +937,7 @@ fn grid() -> Vec<Case> {
                                     plan: vec![],
                                     spelling: 0,
                                     flags_last: false,
+                                    env: vec![],
                                     expr_class: pc.into(),
                                     input_class: ic.into(),
                                 };
@@ -954,6 +1001,7 @@ fn grid() -> Vec<Case> {
             plan: vec![],
             spelling: 0,
             flags_last: false,
+            env: vec![],
             expr_class: "valid".into(),
             input_class: "valid".into(),
         });
@@ -986,6 +1034,8 @@ fn fault_kinds(c: &Case) -> Vec<String> {
 }
 
 struct Tot {
+    /// environment variable names jp was seen to query
+    seen_env: BTreeSet<String>,
     c: BTreeMap<String, u64>,
     cells: BTreeSet<u64>,
     cells_nontrivial: BTreeSet<u64>,
@@ -1009,6 +1059,16 @@ fn process(env: &Env, idx: u64, c: &Case, tot: &mut Tot, out: &mut dyn Write, ve
     }
     let viol = judge(c, &exp, &o);
     let info = informational(c);
+    for l in o.trace.lines() {
+        if let Some(n) = l.strip_prefix("getenv name=") {
+            if !n.starts_with("RUST_") && !n.starts_with("LD_") && tot.seen_env.insert(n.to_string()) {
+                *tot.c.entry(format!("getenv_seen.{}", n)).or_insert(0) += 1;
+            }
+        }
+    }
+    if !c.env.is_empty() {
+        *tot.c.entry("fault.fired.env_set".into()).or_insert(0) += 1;
+    }
     let kinds = fault_kinds(c);
     for k in &kinds {
         // counted where the fault actually hit, as shown by the shim's trace / the file system
@@ -1020,6 +1080,7 @@ fn process(env: &Env, idx: u64, c: &Case, tot: &mut Tot, out: &mut dyn Write, ve
             "eof" => o.trace.contains("(injected EOF"),
             "eintr" => o.trace.contains("injected EINTR"),
             "wshort" | "werr" => o.trace.contains("write"),
+            "tty" => o.trace.contains("isatty") && o.trace.contains("(injected)"),
             _ => true,
         };
         *tot.c.entry(format!("fault.{}.{}", if hit { "fired" } else { "planned_not_reached" }, k)).or_insert(0) += 1;
@@ -1074,6 +1135,10 @@ fn process(env: &Env, idx: u64, c: &Case, tot: &mut Tot, out: &mut dyn Write, ve
         }
     }
     let mut n = 0;
+    if !viol.is_empty() && !info {
+        // the exact case, so that the driver never has to re-generate it
+        writeln!(out, "CASE {} {}", idx, serde_json::to_string(&case_to_json(c)).unwrap()).unwrap();
+    }
     for (clause, detail) in &viol {
         if info {
             writeln!(out, "I {} {} {}", idx, clause, serde_json::to_string(detail).unwrap()).unwrap();
@@ -1100,7 +1165,7 @@ fn main() {
         "gen" => {
             let seed: u64 = arg(&args, "--seed").and_then(|s| s.parse().ok()).unwrap_or(simcore::DEFAULT_SEED);
             let index: u64 = arg(&args, "--index").and_then(|s| s.parse().ok()).unwrap_or(0);
-            let c = gen_case(mix(seed, index));
+            let c = gen_case(mix(seed, index), &BTreeSet::new());
             println!("{}", serde_json::to_string(&json!({"property":"C18","seed":seed,"index":index,"case":case_to_json(&c)})).unwrap());
         }
         "grid" => {
@@ -1117,7 +1182,7 @@ fn main() {
             let samples: u64 = arg(&args, "--samples").and_then(|s| s.parse().ok()).unwrap_or(0);
             let out_path = arg(&args, "--out").unwrap_or_else(|| die("--out required"));
             let mut out = std::io::BufWriter::new(std::fs::File::create(out_path).unwrap_or_else(|e| die(&e.to_string())));
-            let mut tot = Tot { c: BTreeMap::new(), cells: BTreeSet::new(), cells_nontrivial: BTreeSet::new(), traces: BTreeSet::new() };
+            let mut tot = Tot { seen_env: BTreeSet::new(), c: BTreeMap::new(), cells: BTreeSet::new(), cells_nontrivial: BTreeSet::new(), traces: BTreeSet::new() };
             writeln!(out, "SEED {} start={} count={} mode={}", seed, start, count, cmd).unwrap();
             let mut nviol = 0;
             if cmd == "rungrid" {
@@ -1131,7 +1196,7 @@ fn main() {
                 }
             } else {
                 for idx in start..start + count {
-                    let c = gen_case(mix(seed, idx));
+                    let c = gen_case(mix(seed, idx), &tot.seen_env.clone());
                     nviol += process(&env, idx, &c, &mut tot, &mut out, false);
                     if idx < start + samples {
                         writeln!(out, "SAMPLE {}", serde_json::to_string(&json!({"index": idx, "case": case_to_json(&c)})).unwrap()).unwrap();
@@ -1152,7 +1217,7 @@ fn main() {
             let text = std::fs::read_to_string(file).unwrap_or_else(|e| die(&format!("cannot read {}: {}", file, e)));
             let v: Value = serde_json::from_str(&text).unwrap_or_else(|e| die(&format!("bad JSON: {}", e)));
             let c = case_from_json(v.get("case").unwrap_or(&v)).unwrap_or_else(|e| die(&e));
-            let mut tot = Tot { c: BTreeMap::new(), cells: BTreeSet::new(), cells_nontrivial: BTreeSet::new(), traces: BTreeSet::new() };
+            let mut tot = Tot { seen_env: BTreeSet::new(), c: BTreeMap::new(), cells: BTreeSet::new(), cells_nontrivial: BTreeSet::new(), traces: BTreeSet::new() };
             let so = std::io::stdout();
             let mut lock = so.lock();
             let n = process(&env, v.get("index").and_then(|x| x.as_u64()).unwrap_or(0), &c, &mut tot, &mut lock, verbose);
